@@ -12,7 +12,8 @@
    and no affine QuadraticPerturb (c <> 0) of a functional flagged linear.
    [sqrtf] is np.sqrt: any function with the defining property of the square root. *)
 From Coq Require Import Reals List Bool.
-From Verif Require Import Base.Num Base.Vec Base.VecR C08.Model C08.VecLemmas C08.Rules C08.Proofs.
+From Verif Require Import Base.Num Base.Vec Base.VecR C08.Model C08.VecLemmas C08.Rules C08.Proofs
+  C08.ProxRules C08.Moreau.
 Import ListNotations.
 Local Open Scope R_scope.
 
@@ -42,3 +43,25 @@ Example wf_example :
   wf 3 e /\ (exists vx, value sqrt 0 e [1; 2; 2] [0; 1; 1] = Ok vx)
   /\ (exists e' vy, cconj [1; 2; 2] e = Ok e' /\ value sqrt 0 e' [1; 2; 2] [1; 0; 0] = Ok vy).
 Proof. exact wf_example_proof. Qed.
+
+(* T1  Moreau decomposition for EVERY expression tree: whenever both proximals exist,
+       prox_{sigma f}(x) + sigma * prox_{f.convex_conj / sigma}(x / sigma) = x
+   for all sigma > 0, all x, all dimensions and weights.  [D e] (C08/ProxRules.v) excludes, besides
+   the classes that have no proximal (for which the premise is false anyway): LpNorm(inf) /
+   IndicatorLpUnitBall(1) (sort-based l1 projection: correspondence + probes only), a
+   DefaultConvexConjugate wrapped around a functional flagged linear, and a reflection f(s .), s < 0,
+   of a functional whose conjugate is flagged linear. *)
+Theorem moreau_decomposition :
+  forall (sqrtf : R -> R), (forall a, 0 <= a -> 0 <= sqrtf a /\ sqrtf a * sqrtf a = a) ->
+  forall (e e' : fxR) (n : nat) (w x : list R) (sigma : R) (p q : list R),
+  wf n e -> D e -> length w = n -> length x = n -> 0 < sigma ->
+  prox sqrtf e w sigma x = Ok p -> cconj w e = Ok e' ->
+  prox sqrtf e' w (1 / sigma) (vscal (1 / sigma) x) = Ok q ->
+  vadd p (vscal sigma q) = x.
+Proof. exact moreau_tree. Qed.
+Print Assumptions moreau_decomposition.
+
+Example D_example :
+  let e : fxR := FLeft 2 (FTransl (FSep2 1 (FHuber 1) (FRight (-3) (FLp P2))) [1; 0; 2]) in
+  wf 3 e /\ D e /\ (exists p, prox sqrt e [1; 2; 2] (1 / 2) [0; 1; 1] = Ok p).
+Proof. exact D_example_proof. Qed.
